@@ -377,7 +377,8 @@ def run_minc(ctx, spec):
         ctx.see('minc_fraction_mode', mode)
         # embed
         if it % 3 == 0:
-            run_embed_case(ctx, {'geo': desc, 'host_index': rng.randrange(len(under)), 'sub_volumes': [rng.uniform(0.1, 2.0) for _ in range(3)]})
+            run_embed_case(ctx, {'geo': desc, 'host_index': rng.randrange(len(under)), 'sub_volumes': [rng.uniform(0.1, 2.0) for _ in range(3)],
+                                 'host_style': rng.choice(['own', 'stand-alone', 'copy'])})
             ctx.count('embed_cases')
 
 
@@ -484,8 +485,19 @@ def run_embed_case(ctx, case):
         sub.add_connection(t2g.t2connection([sub.block[a], sub.block[b]], 1, [1., 1.], 1., 0.))
     tot0 = sum(b.volume for b in grid.blocklist if b.volume < 1e25)
     n0 = grid.num_blocks
+    # the host block of the connection as the grid's own object, or as another object of the same name (embed() looks
+    # the blocks of the connection up by name in the result, so both are legal requests)
+    style = case.get('host_style', 'own')
+    ctx.see('embed_host_style', style)
+    if style == 'stand-alone':
+        hostarg = t2g.t2block(host.name, host.volume, host.rocktype)
+    elif style == 'copy':
+        import copy
+        hostarg = copy.deepcopy(grid).block[host.name]
+    else:
+        hostarg = host
     with ctx.guard(case, where='embed') as g:
-        res = grid.embed(sub, t2g.t2connection([host, sub.blocklist[0]], 1, [1., 1.], 1., 0.))
+        res = grid.embed(sub, t2g.t2connection([hostarg, sub.blocklist[0]], 1, [1., 1.], 1., 0.))
     if g.raised is not None:
         return
     ctx.evaluated()
